@@ -683,7 +683,7 @@ func indexOf(a *account.Account) int {
 var hdrFields = []string{"version", "chainID", "prevBlockHash", "txRoot", "crossStateRoot", "blockRoot", "timestamp", "height", "consensusData", "consensusPayload", "nextBookkeeper"}
 
 var propFields = func() []string {
-	l := []string{"none", "key", "block.tx", "block.tx-add", "block.bookkeepers", "block.sig0", "block.sig-extra", "empty.sig0", "empty.drop", "info.proposer", "info.vrf"}
+	l := []string{"none", "key", "block.tx", "block.tx-add", "block.tx-dup-tail", "block.tx-dup-pair", "block.bookkeepers", "block.sig0", "block.sig-extra", "empty.sig0", "empty.drop", "info.proposer", "info.vrf"}
 	for _, h := range hdrFields {
 		l = append(l, "block."+h, "empty."+h)
 	}
@@ -738,6 +738,14 @@ func (f *cmsgFam) sigprop(field string, seed uint64) (res string, emptyOk bool, 
 	g := hx.NewRng(seed)
 	acc := accs()[g.Intn(len(accs()))]
 	orig := rndVbftBlock(g, acc, true)
+	if strings.HasPrefix(field, "block.tx-dup") {
+		// a block with 3 (resp. 6) transactions: repeating the trailing transaction (resp. pair) keeps the Merkle root
+		n := 3
+		if field == "block.tx-dup-pair" {
+			n = 6
+		}
+		orig.Block = rndBlock(g, acc, orig.Info, n, orig.Block.Header.Height)
+	}
 	origCanon := canonMsg(&vbft.VerifBlockProposalMsg{Block: orig})
 	// mutable deep copy (fresh headers: no cached hash)
 	mut := &vbft.Block{Block: cloneBlock(orig.Block), EmptyBlock: cloneBlock(orig.EmptyBlock), Info: orig.Info}
@@ -755,6 +763,12 @@ func (f *cmsgFam) sigprop(field string, seed uint64) (res string, emptyOk bool, 
 		} else {
 			mut.Block.Transactions = append(mut.Block.Transactions, mkTx(uint32(g.U64()), []byte{9}))
 		}
+	case field == "block.tx-dup-tail":
+		t := mut.Block.Transactions
+		mut.Block.Transactions = append(t, t[len(t)-1])
+	case field == "block.tx-dup-pair":
+		t := mut.Block.Transactions
+		mut.Block.Transactions = append(t, t[len(t)-2], t[len(t)-1])
 	case field == "block.bookkeepers":
 		mut.Block.Header.Bookkeepers = append(mut.Block.Header.Bookkeepers, accs()[g.Intn(len(accs()))].PublicKey)
 	case field == "block.sig0":
